@@ -1301,7 +1301,14 @@ class ProcessPoolExecutor(Executor):
             # Wake up queue management thread
             self._executor_manager_thread_wakeup.wakeup()
 
+            n_workers = len(self._processes)
             self._ensure_executor_running()
+            if len(self._processes) != n_workers:
+                # The manager thread may already have gone back to waiting
+                # with the previous set of worker sentinels: wake it up again
+                # so that it also watches the workers that were just spawned,
+                # otherwise the death of one of them would go unnoticed.
+                self._executor_manager_thread_wakeup.wakeup()
             return f
 
     submit.__doc__ = Executor.submit.__doc__
